@@ -10,6 +10,13 @@ def handle (j : Json) : Json :=
     let cl := cancelCmd ((jarr j "cl").map asNat) ((jarr j "uids").map asNat)
     let r := intake cl ((jarr j "things").map asNat)
     Json.mkObj [("worked", jl (r.1.map jn)), ("canceled", jl (r.2.1.map jn)), ("cancel_list", jl (r.2.2.map jn))]
+  else if op == "request" then
+    let known := (jarr j "known").map asNat
+    let arg : Arg := match j.getObjVal? "arg" with
+      | .ok (.arr a) => .many (a.toList.map asNat)
+      | .ok (.num n) => .one (asNat (.num n))
+      | _            => .none
+    jl ((request known arg).map jn)
   else Json.str "bad-op"
 
 end Driver.Cancel
